@@ -212,9 +212,27 @@ theorem getUserRolesL_inv (env : Env) (l : Local) (h : LInv env l) (u : User) (o
       · rfl
       · exact h.2 kv h'
 
-theorem hasPermS_inv (env : Env) (s : Sess) (hc : CacheInv s.perm) (hl : LInv env s.loc) (u : User) (p : String) (x : Target) :
+def LabInv (env : Env) (lc : List (Obj × List String)) : Prop := ∀ kv ∈ lc, kv.2 = env.labelsOf kv.1
+
+theorem getObjectLabelsL_inv (env : Env) (lc : List (Obj × List String)) (h : LabInv env lc) (o : Obj) :
+    (getObjectLabelsL env lc o).1 = getObjectLabels env o ∧ LabInv env (getObjectLabelsL env lc o).2 := by
+  cases hl : List.lookup o lc with
+  | some r =>
+    have := h _ (lookup_mem' o r lc hl)
+    simp only [getObjectLabelsL, hl]
+    exact ⟨this, h⟩
+  | none =>
+    simp only [getObjectLabelsL, hl]
+    refine ⟨rfl, ?_⟩
+    intro kv hkv
+    rcases List.mem_cons.mp hkv with rfl | h'
+    · rfl
+    · exact h kv h'
+
+theorem hasPermS_inv (env : Env) (s : Sess) (hc : CacheInv s.perm) (hl : LInv env s.loc) (hb : LabInv env s.labels)
+    (u : User) (p : String) (x : Target) :
     (hasPermS env s u p x).1 = hasPerm env u p x ∧ CacheInv (hasPermS env s u p x).2.perm ∧
-      LInv env (hasPermS env s u p x).2.loc := by
+      LInv env (hasPermS env s u p x).2.loc ∧ LabInv env (hasPermS env s u p x).2.labels := by
   rw [hasPerm_eq]
   unfold hasPermS hasPerm0
   simp only [cache_miss s.perm hc]
@@ -228,8 +246,8 @@ theorem hasPermS_inv (env : Env) (s : Sess) (hc : CacheInv s.perm) (hl : LInv en
       simp only at g1 g2
       subst g1
       cases x with
-      | entity e => exact ⟨rfl, cacheInv_set _ hc u p p _, g2⟩
-      | attr a => exact ⟨rfl, cacheInv_set _ hc u p p _, g2⟩
+      | entity e => exact ⟨rfl, cacheInv_set _ hc u p p _, g2, hb⟩
+      | attr a => exact ⟨rfl, cacheInv_set _ hc u p p _, g2, hb⟩
       | obj o =>
         dsimp only
         obtain ⟨r1, r2⟩ := getUserRolesL_inv env l1 g2 u o
@@ -237,23 +255,28 @@ theorem hasPermS_inv (env : Env) (s : Sess) (hc : CacheInv s.perm) (hl : LInv en
         obtain ⟨ur, l2⟩ := rr
         simp only at r1 r2
         subst r1
-        exact ⟨rfl, cacheInv_set _ hc u p p _, r2⟩
+        obtain ⟨b1, b2⟩ := getObjectLabelsL_inv env s.labels hb o
+        generalize getObjectLabelsL env s.labels o = lr at b1 b2
+        obtain ⟨ol, lab2⟩ := lr
+        simp only at b1 b2
+        subst b1
+        exact ⟨rfl, cacheInv_set _ hc u p p _, r2, b2⟩
     · simp only [if_true]
-      exact ⟨trivial, hc, hl⟩
+      exact ⟨trivial, hc, hl, hb⟩
   · simp only [if_true]
-    exact ⟨trivial, hc, hl⟩
+    exact ⟨trivial, hc, hl, hb⟩
 
 theorem runSessionCalls_inv (env : Env) (calls : List (User × String × Target)) :
-    ∀ s : Sess, CacheInv s.perm → LInv env s.loc →
+    ∀ s : Sess, CacheInv s.perm → LInv env s.loc → LabInv env s.labels →
       (runSessionCalls env s calls).1 = calls.map (fun q => hasPerm env q.1 q.2.1 q.2.2) := by
   induction calls with
-  | nil => intro s _ _; rfl
+  | nil => intro s _ _ _; rfl
   | cons q rest ih =>
-    intro s hc hl
+    intro s hc hl hb
     obtain ⟨u, p, x⟩ := q
-    obtain ⟨h1, h2, h3⟩ := hasPermS_inv env s hc hl u p x
+    obtain ⟨h1, h2, h3, h4⟩ := hasPermS_inv env s hc hl hb u p x
     simp only [runSessionCalls, List.map_cons]
-    rw [ih _ h2 h3, h1]
+    rw [ih _ h2 h3 h4, h1]
 
 /-! ### `subset`, `contains` as propositions -/
 
